@@ -280,6 +280,41 @@ func main() {
 	p := config.GetDefaultParams()
 	_ = common.Uint256{}
 	setupV2()
+	// The consensus functions must be functions of chain data even with NOTHING else running:
+	// evaluate each reference 40 times sequentially (Go map iteration order varies from call to
+	// call); any difference is a violation by itself and would also make schedules unreproducible.
+	for _, bv := range []int{1, 2, 3} {
+		first := ""
+		for k := 0; k < 40; k++ {
+			delete(v2Ref, bv)
+			cur := v2Reference(bv)
+			if k == 0 {
+				first = cur
+			} else if cur != first {
+				r.Violate("C24|arbiter-order-nondeterministic|getRandomDposV2Producers",
+					"the DPoS v2 arbiter order for a fixed previous block differs between two sequential evaluations on the same state with nothing else running (e.g. an order that depends on Go map iteration)",
+					map[string]interface{}{"scenario": scen{Name: "sequential-repeat", V2: []int{bv}}, "schedule": []int{}, "first": first, "other": cur})
+				break
+			}
+		}
+		idx := -1
+		for k := 0; k < 40; k++ {
+			got, err := state.VerifCandidateIndexAtRandom(p, prevBlock(bv), prevBlock(bv).Height+1, 0, 60)
+			if err != nil {
+				break
+			}
+			if k > 0 && got != idx {
+				r.Violate("C24|candidate-index-nondeterministic|getCandidateIndexAtRandom", "candidate index differs between sequential evaluations with nothing else running",
+					map[string]interface{}{"scenario": scen{Name: "sequential-repeat", Blocks: []int{bv}, Voted: 60}, "schedule": []int{}})
+				break
+			}
+			idx = got
+		}
+	}
+	if r.NumViolations() > 0 && r.Replay == "" {
+		r.Finish(evid.Coverage{"states": 1, "transitions": 1, "traces_validated_against_impl": 240, "samples": []interface{}{"sequential repeat of the reference evaluations"},
+			"rule": "sequential determinism pre-check failed; schedule exploration skipped because outcomes would not be reproducible", "exhaustive": false})
+	}
 	if v2Reference(1) == v2Reference(2) && v2Reference(2) == v2Reference(3) {
 		evid.Fatalf("harness: the v2 order does not depend on the previous block — selection loop not reached")
 	}
